@@ -11,6 +11,9 @@ for sid in sorted(os.listdir(os.path.join(HERE, 'seeded'))):
     res = json.load(open(os.path.join(d, 'result.json'))) if os.path.isfile(os.path.join(d, 'result.json')) else None
     first = (meta.get('needs_to_manifest') or '').strip().splitlines()
     title = first[0].lstrip('# ').strip() if first else ''
+    if meta.get('obsolete'):
+        rows.append((sid, meta['property'], ', '.join(meta.get('files', [])), title, 'obsolete', meta['obsolete']))
+        continue
     if res is None:
         rows.append((sid, meta['property'], ', '.join(meta.get('files', [])), title, 'not run', ''))
         continue
